@@ -81,6 +81,8 @@ X = [
     "Term\n: def\n", ":f: v\n", "{nosuchrole}`x`\n", "```{nodir}\n```\n", ":::{tip}\ncolon inner\n:::\n", "- [ ] task\n\n  para in item\n",
     "line one  \nline two\n", "```\ncode with trailing blanks  \n\n```\n", "    indented code  \n", "> quoted  \n> second\n",
     "lead\n\n---\n\ntail\n", "esc \\*x\\* \\[t\\](u) &amp;lt; end\n", "```{topic} Topic title\ntopic body\n```\n", "```{sidebar} Side title\nside body\n```\n", "\ttab indented code\n", "```\na\tb\n```\n", "- li\n\n\ttab continuation\n", "para with\ttab\n",
+    # a definition in this body, used one directive level further down (the document outside has no definition of its own)
+    "[r]: http://u\n\n```{tip}\ndeeper [a][r] use\n```\n", "x[^f]\n\n:::{tip}\ndeeper y[^f] use\n:::\n\n[^f]: foot\n",
 ]
 
 
